@@ -729,7 +729,7 @@ func DefaultReadOnly(name string) bool {
 		"(*sync.Pool).Put", "encoding/hex.EncodeToString", "(*encoding/base32.Encoding).EncodeToString",
 		"fmt.Sprintf", "fmt.Errorf", "fmt.Sprint", "fmt.Println", "fmt.Sprintln", "encoding/json.Marshal",
 		"(*net/url.URL).Query", "(*net/url.URL).String", "(net/url.Values).Get", "(net/url.Values).Encode",
-		"bytes.Equal", "bytes.Compare", "string", "builtin.len", "builtin.cap", "builtin.println", "builtin.print", "cmp.Or", "cmp.Compare", "cmp.Less",
+		"bytes.Equal", "bytes.Compare", "string", "builtin.len", "builtin.cap", "builtin.println", "builtin.print", "cmp.Or", "cmp.Compare", "cmp.Less", "slices.Contains", "slices.Index", "slices.Equal", "slices.Max", "slices.Min", "slices.BinarySearch", "slices.Backward", "slices.All", "slices.Values", "maps.Keys", "maps.Values", "maps.All",
 		"(*github.com/valyala/fasthttp.RequestCtx).SetBody", "(*github.com/valyala/fasthttp.RequestCtx).Write":
 		return true
 	}
